@@ -461,10 +461,18 @@ func edges(part, parts int) {
 	}
 	// long malformed lines: the error is found early, a long tail follows
 	if part == 0 {
-		tail := strings.Repeat("90", 150)
-		for _, bad := range []string{"12 9Z" + tail + "\n", "1x2 " + tail + "\n", "12 90 " + tail + " 80\n", "12" + tail + "\n"} {
-			judgeStream(bad+"99 B0077F\n17 C0\n", "long malformed line")
-			judgeStream("5 80\n"+bad+"99 B0077F\n", "long malformed line in the middle")
+		// (tails up to several megabytes: a reader that gives up looking for the
+		// end of a broken line must not take the rest of it for a line of its own)
+		for _, reps := range []int{150, 1100, 33000, 524300, 1600000} {
+			tail := strings.Repeat("90", reps)
+			for _, bad := range []string{"12 9Z" + tail + "\n", "1x2 " + tail + "\n", "12 90 " + tail + " 80\n", "12" + tail + "\n", "12 9Z" + strings.Repeat(" 0 903C7F", reps/5) + "\n",
+				// whereever a reader may stop skipping inside the zeros, what is left looks like a record
+				"12 9Z" + strings.Repeat("0", 2*reps) + " 903C7F\n", "1x2 " + strings.Repeat("0", 2*reps) + " 903C7F\n",
+				"x7 F0" + strings.Repeat("0", 2*reps) + " 903C7F\n", "12 90 " + strings.Repeat("0", 2*reps) + " 903C7F\n", "- 90" + strings.Repeat("0", 2*reps) + " 903C7F\n"} {
+				judgeStream(bad+"99 B0077F\n17 C0\n", "long malformed line")
+				judgeStream("5 80\n"+bad+"99 B0077F\n", "long malformed line in the middle")
+				ctx.Add("long_malformed_lines", 2)
+			}
 		}
 	}
 	for _, ln := range []int{1, 3, 31, 32, 33, 64, 65, 128, 129, 300} {
